@@ -84,6 +84,12 @@ fn cases_attacks(_rng: &mut Rng, sink: &mut dyn FnMut(J) -> bool) {
     for who in ["issuer", "other_holder_same_family", "other_holder_other_family", "hs_with_public_key"] {
         attacks.push(json!({"kind": "resigned", "by": who}));
     }
+    // a copy of a disclosure inserted after the KB-JWT was signed
+    for whre in ["adjacent", "before", "end", "front", "twice_adjacent"] {
+        for index in [0, 1, 3, 7] {
+            attacks.push(json!({"kind": "duplicate", "index": index, "where": whre}));
+        }
+    }
     for how in ["one_more", "one_fewer", "reordered", "none_left", "other_credential", "sd_hash_of_other_set"] {
         attacks.push(json!({"kind": "replay", "how": how}));
     }
@@ -371,6 +377,27 @@ pub fn check(case: &J) -> Verdict {
                 }
             };
             expect_reject(verify(&text, Some(&kb.aud), Some(&kb.nonce)), &format!("a KB-JWT replayed ({how})"))
+        }
+        "duplicate" => {
+            let n = p.disclosures.len();
+            if n == 0 {
+                return Verdict::Trivial;
+            }
+            let i = (attack["index"].as_u64().unwrap_or(0) as usize) % n;
+            let d = p.disclosures[i].clone();
+            let mut ds = p.disclosures.clone();
+            match attack["where"].as_str().unwrap_or("adjacent") {
+                "adjacent" => ds.insert(i + 1, d),
+                "before" => ds.insert(i, d),
+                "end" => ds.push(d),
+                "front" => ds.insert(0, d),
+                _ => {
+                    ds.insert(i + 1, d.clone());
+                    ds.insert(i + 1, d);
+                }
+            }
+            let text = Parts { jwt: p.jwt.clone(), disclosures: ds, kb: Some(kb_jwt.clone()) }.serialize(&cfg.format);
+            expect_reject(verify(&text, Some(&kb.aud), Some(&kb.nonce)), &format!("a presentation into which a copy of disclosure #{i} was inserted ({}) after the KB-JWT was signed", attack["where"]))
         }
         "kb_char" => {
             let pos = attack["pos"].as_u64().unwrap_or(0) as usize;
